@@ -147,6 +147,10 @@ func (s *c11Server) respond() {
 	switch {
 	case s.sc.Resp == "ok":
 		emit(frame(resp))
+	case s.sc.Resp == "ok-exit":
+		// a complete, valid response, and the process is gone right after writing it
+		emit(frame(resp))
+		s.exitLocked()
 	case s.sc.Resp == "nocert":
 		resp.PemCert = nil
 		emit(frame(resp))
@@ -327,8 +331,10 @@ type c11Client struct {
 	sent    []*conformancev1.ClientCompatRequest // accepted, in order
 	sentAt  []bool                               // server alive when sent
 	refused []string
-	answers map[string]string
-	srv     *c11Server
+	// requests handed over although the server process had already exited when the call began
+	sentToDead []string
+	answers    map[string]string
+	srv        *c11Server
 }
 
 func (c *c11Client) seen() int { c.mu.Lock(); defer c.mu.Unlock(); return len(c.sent) }
@@ -362,6 +368,13 @@ func (c *c11Client) answerFor(k int, req *conformancev1.ClientCompatRequest) (*c
 }
 
 func (c *c11Client) sendRequest(req *conformancev1.ClientCompatRequest, whenDone func(string, *conformancev1.ClientCompatResponse, error)) error {
+	// There is no gate between the runner's "is the server still there" check and this
+	// call, so the server's state now is what the runner saw (or could have seen).
+	if c.srv.hasExited() {
+		c.mu.Lock()
+		c.sentToDead = append(c.sentToDead, req.TestName)
+		c.mu.Unlock()
+	}
 	gate.Point("client.send")
 	c.mu.Lock()
 	k := c.calls
@@ -413,6 +426,7 @@ type c11Obs struct {
 	Sent     []*conformancev1.ClientCompatRequest
 	SentLive []bool
 	Refused  []string
+	SentDead []string
 	Answers  map[string]string
 	Aborted  int
 	Started  bool
@@ -542,6 +556,7 @@ func c11RunOne(t *testing.T, sc c11Scenario, prefix []int, expect []gate.PointRe
 		obs.Sent = append(obs.Sent, cl.sent...)
 		obs.SentLive = append(obs.SentLive, cl.sentAt...)
 		obs.Refused = append(obs.Refused, cl.refused...)
+		obs.SentDead = append(obs.SentDead, cl.sentToDead...)
 		obs.Answers = map[string]string{}
 		for k, v := range cl.answers {
 			obs.Answers[k] = v
@@ -575,7 +590,7 @@ func c11ServerBroken(sc c11Scenario) bool {
 		return true
 	}
 	switch {
-	case sc.Resp == "ok":
+	case sc.Resp == "ok", sc.Resp == "ok-exit":
 		return false
 	case sc.Resp == "zero":
 		return sc.TLS // an empty response is valid without TLS (no cert needed)
@@ -664,6 +679,9 @@ func c11Judge(sc c11Scenario, obs *c11Obs, x *gate.Exec) []gateVerdict {
 		if ok1 && ok2 && before.setupError && before.actualFailure != nil && (!after.setupError || after.actualFailure == nil) {
 			add("setup-error-lost-in-report", "case %q was recorded as a setup error (%v) but after the report it is setup=%v failure=%v", n, before.actualFailure, after.setupError, after.actualFailure)
 		}
+	}
+	for _, n := range obs.SentDead {
+		add("sent-after-server-death", "case %q was handed to the client although the server process had already exited; it must be recorded as a setup error instead", n)
 	}
 	if obs.Started && obs.Aborted == 0 {
 		add("server-not-stopped", "the server process was started but never asked to stop")
@@ -808,6 +826,16 @@ func c11Scenarios(thorough bool) []c11Scenario {
 			for _, ans := range c11AnswerTuples(n, []string{"pass", "mismatch", "noresult"}) {
 				s := base(n)
 				s.ExitAfter, s.Answers = k, ans
+				out = append(out, s)
+				s.Sync = true // callbacks inside sendRequest: the runner is parked there when the server dies
+				out = append(out, s)
+			}
+		}
+		// server answers and is gone immediately (before the first request can be sent)
+		for _, tls := range []bool{false, true} {
+			for _, sync := range []bool{false, true} {
+				s := base(n)
+				s.TLS, s.Resp, s.Sync = tls, "ok-exit", sync
 				out = append(out, s)
 			}
 		}
